@@ -295,6 +295,74 @@ class Analysis:
         return res
 
 
+class GuardedMoves(ir.Client):
+    """memJoin-style primitives: each block move is justified by a memIsDisjoint2 guard assumed on the path.
+    state: (disjointness facts, regions written so far)"""
+
+    def __init__(self, f):
+        from . import vp
+        self.f = f
+        self.canon = vp.Canon(f)
+        self.bad = {}
+        self.moves = 0
+
+    def init(self, func):
+        return (frozenset(), frozenset())
+
+    def assume(self, c, pol, st, env, node):
+        facts, written = st
+        c = strip(c)
+        if ir.is_call(c, ("memIsDisjoint2",)) and pol and len(c["a"]) == 4:
+            a = (self.canon(c["a"][0]), self.canon(c["a"][1]))
+            b = (self.canon(c["a"][2]), self.canon(c["a"][3]))
+            facts = facts | {(a, b), (b, a)}
+        return (facts, written)
+
+    def eval(self, e, st, env, node):
+        facts, written = st
+        for l, rhs, op in ir.assigned_vars(e):
+            # a parameter is re-based: what was known about the old regions no longer applies
+            if l.get("rk") == "param":
+                facts, written = frozenset(), frozenset()
+        for c in ir.calls(e):
+            if c.get("callee") in ("memMove", "memCopy", "memmove", "memcpy") and len(c["a"]) == 3:
+                self.moves += 1
+                wr = (self.canon(c["a"][0]), self.canon(c["a"][2]))
+                rd = (self.canon(c["a"][1]), self.canon(c["a"][2]))
+                rbase = ir.root_ref(c["a"][1])
+                for w in written:
+                    wbase = w[2]
+                    if rbase is not None and wbase == rbase.get("n"):
+                        continue          # moving data inside the buffer that was written
+                    if ((w[0], w[1]), rd) not in facts:
+                        self.bad.setdefault((node.line, w[:2], rd), (w, rd))
+                wb = ir.root_ref(c["a"][0])
+                written = written | {(wr[0], wr[1], wb.get("n") if wb is not None else "?")}
+        return (facts, written)
+
+
+def check_guarded_primitive(prog, res, name):
+    f = prog.funcs.get(name)
+    if f is None or f.body is None:
+        raise AnalysisBroken("%s vanished" % name)
+    cl = GuardedMoves(f)
+    ir.run_paths(f, cl)
+    if cl.moves < 4:
+        raise AnalysisBroken("%s: fewer block moves than expected" % name)
+    if cl.bad:
+        for (line, w, rd), _ in sorted(cl.bad.items()):
+            res.violation("R11-guarded-moves", function=name, file=f.relfile, line=line,
+                          construct="move reads [%s, %s) after [%s, %s) was written without a disjointness guard" % (rd[0], rd[1], w[0], w[1]),
+                          detail="%s is documented overlap-tolerant; on this path the region [%s, +%s) is read after [%s, +%s) "
+                                 "was written, and no memIsDisjoint2 test of exactly these regions was passed" %
+                                 (name, rd[0], rd[1], w[0], w[1]))
+    else:
+        res.proved("R11-guarded-moves", function=name, file=f.relfile, line=f.line,
+                   construct="%d block move(s) on guarded paths" % cl.moves,
+                   detail="every read of a source region after a write is covered by a memIsDisjoint2 guard assumed on the path "
+                          "(the element-wise fallback arm is trusted)")
+
+
 FROZEN_UNDECIDED = [
     {"rule": "R11-overlap-order", "function": "memMove", "construct": "trusted primitive"},
     {"rule": "R11-overlap-order", "function": "memJoin", "construct": "trusted primitive"},
@@ -347,6 +415,7 @@ def run(tier, seed=0):
                            construct="%d ordered pair(s): %s" % (len(good), ", ".join("%s<-%s" % p for p in good[:6])),
                            detail="on every path, once the writable buffer has been written the other one is never read again, "
                                   "and operations touching both at once are overlap-tolerant")
+    check_guarded_primitive(prog, res, "memJoin")
     res.floor("documented overlap-tolerant functions", ninst, 45)
     res.coverage["ordered_pairs"] = npairs
     res.coverage["explanation"] = (
